@@ -11,6 +11,8 @@ TABLE = json.load(open(os.path.join(facts.VERIF, 'tables', 'c15.json')))
 UNITS = [
     Unit('st_pat', 'simplex_tree_pat.cpp', ['src/Simplex_tree/'], no_inst=True),
     Unit('mx_pat', 'matrix_pat.cpp', ['src/Persistence_matrix/', 'src/Zigzag_persistence/'], no_inst=True),
+    # option grid (boundary / RU / chain x three indexations) for entry points whose return type depends on the options
+    Unit('mx_inst', 'matrix_inst.cpp', ['src/Persistence_matrix/include/gudhi/Matrix.h'], fn=['insert_boundary']),
 ]
 
 
@@ -100,22 +102,74 @@ def run_e1(chk, F):
 
 
 def run_e1c(chk, F):
-    """Every assignment operator returns on every path (flowing off the end of a non-void function is UB)."""
-    n = 0
+    """No function with a non-void return type flows off its end on any path (undefined behaviour); contradictory
+    if-constexpr arms are pruned, infinite loops are only left through break/return. Covers every function of the two
+    families, not only the assignment operators."""
+    n = n_assign = 0
     for fn in F.functions:
-        if fn['inst'] not in (0, 2) or fn['name'] != 'operator=':
+        if fn['inst'] not in (0, 2) or fn.get('body') is None or fn.get('defaulted'):
             continue
-        if fn.get('ret', 'void') == 'void' or fn.get('defaulted'):
+        ret = fn.get('ret', 'void') or 'void'
+        if ret == 'void' or fn['kind'] in ('ctor', 'dtor', 'copy_ctor', 'move_ctor', 'default_ctor'):
+            continue
+        if ret.startswith('std::enable_if_t<') and ret.count(',') == ret[ret.rfind('>::value'):].count(','):
+            # enable_if_t<cond> without a second argument is void
+            if _enable_if_is_void(ret):
+                continue
+        owner = fn.get('clsname') or '-'
+        fq = '%s::%s' % (owner, fn['name'])
+        if fq in TABLE.get('return_exempt', {}):
+            chk.count('E1c exempt functions')
             continue
         n += 1
-        ps = paths.enumerate_paths(fn, lambda x: [], keep_conds=False)
+        if fn['name'] == 'operator=':
+            n_assign += 1
+        try:
+            ps = paths.enumerate_paths(fn, lambda x: [], keep_conds=True, cap=30000)
+        except paths.TooManyPaths:
+            raise facts.AnalysisBroken('C15: too many paths in %s' % fn['qual'])
         bad = [p for p in ps if p.end == 'fall']
-        chk.ob('E1c-assign-returns', '%s::operator=' % fn.get('clsname'),
-               '%s:%d' % (rel(fn['file']), fn['line']), not bad,
-               '' if not bad else 'a path reaches the end of the non-void operator= without a return statement',
-               key='E1c|%s::operator=|%s' % (fn.get('clsname'), fn['kind']))
-    chk.count('E1c assignment operators', n)
-    chk.expect_count('E1c', 'assignment operators', n, 40)
+        if bad and fn['inst'] == 0 and fn.get('retc') is None:
+            # the return type depends on the template arguments (it may be void for the arm that falls through):
+            # decide on the instantiations of the option grid instead
+            insts = [g for g in F.functions if g['inst'] == 1 and g['name'] == fn['name'] and g['file'] == fn['file']
+                     and len(g['params']) == len(fn['params']) and g.get('clsname') == fn.get('clsname')]
+            if insts:
+                for g in insts:
+                    if (g.get('retc') or 'void') == 'void':
+                        continue
+                    gps = paths.enumerate_paths(g, lambda x: [], keep_conds=True, cap=30000)
+                    gbad = [p for p in gps if p.end == 'fall']
+                    opt = (g.get('targs') or '')[:110]
+                    chk.ob('E1c-returns', '%s [%s] returns a value on every path' % (fq, opt),
+                           '%s:%d' % (rel(g['file']), g['line']), not gbad,
+                           '' if not gbad else 'this instantiation returns %s but a path flows off the end of the '
+                           'function (undefined behaviour)' % g.get('retc'),
+                           key='E1c|%s|inst|%s' % (fq, opt))
+                chk.count('E1c functions decided on the instantiated option grid')
+                continue
+        chk.ob('E1c-returns', '%s returns a value on every path' % fq, '%s:%d' % (rel(fn['file']), fn['line']),
+               not bad, '' if not bad else 'a path reaches the end of the non-void function without a return statement '
+               '(undefined behaviour) [decisions: %s]' % '; '.join(
+                   ('' if pol else '!') + ir.show(c)[:60] for c, pol, _ in bad[0].conds
+                   if not isinstance(c, tuple))[:240],
+               key='E1c|%s|%s|%d' % (fq, fn['kind'], len(fn['params'])), nontrivial=(fn['name'] == 'operator='))
+    chk.count('E1c non-void functions', n)
+    chk.expect_count('E1c', 'assignment operators', n_assign, 40)
+    chk.expect_count('E1c', 'non-void functions', n, 600)
+
+
+def _enable_if_is_void(ret):
+    inner = ret[len('std::enable_if_t<'):-1] if ret.endswith('>') else ret
+    depth = 0
+    for ch in inner:
+        if ch in '<(':
+            depth += 1
+        elif ch in '>)':
+            depth -= 1
+        elif ch == ',' and depth == 0:
+            return False
+    return True
 
 
 def run_bounded_reads(chk, F):
@@ -160,7 +214,7 @@ def run_static_state(chk, F):
     families is const / constexpr / thread_local / of an empty type, or in the allow-list with its reason"""
     n = 0
     for v in F.staticvars:
-        if v['const'] or v['constexpr']:
+        if v['const'] or v['constexpr'] or v['unit'] == 'mx_inst':
             continue
         n += 1
         allow = TABLE['static_state_allowed'].get(v['qual'])
